@@ -43,7 +43,7 @@ BaseProperty = h.BaseProperty
 
 CANON = ('string', 'text', 'int', 'float', 'url', 'datetime', 'date', 'time', 'boolean', 'person')
 STR_TYPES = ('string', 'text', 'url', 'person')
-TUPLE_RE = re.compile(r'^[1-9][0-9]*-tuple$')
+TUPLE_RE = re.compile(r'\A[1-9][0-9]*-tuple\Z')       # \Z, not $: '2-tuple\n' is not a type name
 
 
 # The repository's own tests (test_property.test_dtype, test_section.test_create_property) pin the two
@@ -120,6 +120,39 @@ def vsnap(p):
             else ('enum', str(p._dtype)))
 
 
+# hostile stand-ins for the native types (exact type checks must not be fooled by subclasses)
+class _Str(str):
+    pass
+
+
+class _Int(int):
+    pass
+
+
+class _Float(float):
+    pass
+
+
+class _Date(dt.date):
+    pass
+
+
+class _Time(dt.time):
+    pass
+
+
+class _DateTime(dt.datetime):
+    pass
+
+
+class _Num(enum.IntEnum):
+    one = 1
+    five = 5
+
+
+UTC = dt.timezone.utc
+CET = dt.timezone(dt.timedelta(hours=1))
+
 # ---------------------------------------------------------------------------------------------
 # pools
 # ---------------------------------------------------------------------------------------------
@@ -174,7 +207,18 @@ DTYPES = [(c, c) for c in CANON] + [('2-tuple', '2-tuple'), ('3-tuple', '3-tuple
          [('none', None), ('upper-INT', 'INT'), ('capital-Float', 'Float'), ('alias-str', 'str'),
           ('alias-bool', 'bool'), ('attr-upper', 'upper'), ('attr-mro', 'mro'), ('attr-strip', 'strip'),
           ('attr-name', 'name'), ('zero-tuple', '0-tuple'), ('bare-tuple', 'tuple'), ('upper-2-TUPLE', '2-TUPLE'),
-          ('empty-str', ''), ('unknown-word', 'quantity'), ('non-str-int', 5), ('padded-int', ' int')]
+          ('empty-str', ''), ('unknown-word', 'quantity'), ('non-str-int', 5), ('padded-int', ' int'),
+          # near misses of type names
+          ('trailing-newline-2-tuple', '2-tuple\n'), ('trailing-newline-int', 'int\n'), ('trailing-blank-int', 'int '),
+          ('trailing-blank-2-tuple', '2-tuple '), ('leading-newline-2-tuple', '\n2-tuple'),
+          ('leading-zero-02-tuple', '02-tuple'), ('fullwidth-digit-tuple', '\uff12-tuple'),
+          ('arabic-indic-digit-tuple', '\u0662-tuple'), ('negative-tuple', '-2-tuple'), ('plus-tuple', '+2-tuple'),
+          ('no-dash-2tuple', '2tuple'), ('underscore-2_tuple', '2_tuple'), ('two-lines-tuple', 'x\n2-tuple'),
+          ('1-tuple', '1-tuple'), ('10-tuple', '10-tuple'), ('word-integer', 'integer'), ('word-double', 'double'),
+          ('word-datetime.datetime', 'datetime.datetime'), ('mixed-case-DateTime', 'DateTime'),
+          ('upper-STRING', 'STRING'), ('dotless-i-ınt', '\u0131nt'), ('capital-dotted-İNT', '\u0130NT'),
+          ('bytes-int', b'int'), ('list-of-name-int', ['int']), ('str-subclass-int', _Str('int')), ('python-type-int', int), ('python-type-str', str),
+          ('nul-int', 'int\x00'), ('two-names', 'int float')]
 DTYPE = dict(DTYPES)
 NATIVE = {'string': ['x', 'y'], 'text': ['multi\nline', 't2'], 'int': [1, -3], 'float': [1.5, 0.25],
           'url': ['http://example.org/a', 'http://b.org'], 'datetime': [DT1, DT2], 'date': [D1, D2],
@@ -453,8 +497,8 @@ class Agg(object):
     Classes are first collected with all dimensions (clause, op, strict, dtype, argument type, exception);
     a dimension on which the failure does not depend is then dropped: strict when both settings fail,
     dtype when (all but at most one) canonical dtypes fail, argument type when three or more kinds fail; for the
-    near-miss phase also the argument form (two or more), the entry point (three or more) and the near-miss label
-    (six or more: then the defect is not about one particular spelling)."""
+    near-miss phase the way the value got in (entry point, strict, argument form) when there are several, and the
+    near-miss label when six or more fail (then the defect is not about one particular spelling)."""
 
     def __init__(self):
         self.d = {}
@@ -487,10 +531,29 @@ class Agg(object):
                 first[2][dim] = merged_value
                 self.d[tuple(sorted(first[2].items()))] = first
 
+    def _collapse_entries(self):
+        """Near-miss classes that differ only in how the value got in (entry point, strict, argument form) are
+        one class; the way in is kept when there is only one."""
+        groups = {}
+        for k, e in self.d.items():
+            if 'entry' in e[2]:
+                rest = tuple(sorted((a, b) for a, b in e[2].items() if a not in ('entry', 'strict', 'form')))
+                groups.setdefault(rest, []).append(k)
+        for rest, keys in groups.items():
+            if len(keys) < 2:
+                continue
+            keys.sort(key=lambda k: (self.d[k][5], repr(k)))
+            entries = sorted(set(self.d[k][2]['entry'] for k in keys))
+            first = self.d.pop(keys[0])
+            for k in keys[1:]:
+                first[0] += self.d.pop(k)[0]
+            first[2] = dict(rest)
+            first[2]['entry'] = entries[0] if len(entries) == 1 else 'several-entry-points'
+            self.d[tuple(sorted(first[2].items()))] = first
+
     def flush(self, col):
         self._merge('strict', lambda pres: {'True', 'False'} <= pres, 'either')
-        self._merge('form', lambda pres: len(pres) >= 2, 'several-forms')
-        self._merge('entry', lambda pres: len(pres) >= 3, 'several-entry-points')
+        self._collapse_entries()
         self._merge('feature', lambda pres: len(pres) >= 6 and all(':' in f for f in pres), 'several-near-misses')
         self._merge('dtype', lambda pres: len([c for c in CANON if c in pres]) >= len(CANON) - 1, 'any')
         self._merge('value', lambda pres: len(pres) >= 3, 'several-kinds')
@@ -510,38 +573,6 @@ class Agg(object):
 # about the result (stored values have exactly the type of the dtype and are in normal form; a refusal
 # is a ValueError and changes nothing; dtype= converts all or nothing).
 # ---------------------------------------------------------------------------------------------
-
-class _Str(str):
-    pass
-
-
-class _Int(int):
-    pass
-
-
-class _Float(float):
-    pass
-
-
-class _Date(dt.date):
-    pass
-
-
-class _Time(dt.time):
-    pass
-
-
-class _DateTime(dt.datetime):
-    pass
-
-
-class _Num(enum.IntEnum):
-    one = 1
-    five = 5
-
-
-UTC = dt.timezone.utc
-CET = dt.timezone(dt.timedelta(hours=1))
 
 NATIVE_TEXT = {'string': ['abc'], 'text': ['ab\ncd'], 'url': ['http://example.org/x'], 'person': ['Doe, Jane'],
                'int': ['5', '-12'], 'float': ['1.5', '-0.25'], 'boolean': ['true', 'False'],
@@ -568,8 +599,6 @@ TEXT_DISGUISES = [
     ('parenthesised', lambda t: '(' + t + ')'), ('str-subclass', lambda t: _Str(t)),
     ('bytes', lambda t: t.encode('utf-8')), ('bytearray', lambda t: bytearray(t.encode('utf-8'))),
 ]
-
-_AR = lambda t: _digits(t, 0x0660)      # noqa: E731
 
 # near misses proper: dtype -> [(label, value)]
 NEAR = {
@@ -826,7 +855,7 @@ def nm_cases(D, x, scope):
             if entry == 'insert':
                 return n == core_n and form == 'single' and idx == 0 and strict is False
             if entry in ('dtype=', 'merge'):
-                return first_source and n in (None, 1) and strict in (None, False)
+                return first_source and n in (None, 1) and strict in (None, False) and not member
             return False
         # quick
         if entry == 'constructor':
@@ -844,7 +873,9 @@ def nm_cases(D, x, scope):
         if entry == 'extend':
             return n == core_n or (n == 0 and form in ('single', second) and strict is False)
         if entry == 'dtype=':
-            return True
+            return not member or first_source
+        if entry == 'remove':
+            return n == 2
         if entry == 'merge':
             return n == 1 or (n == 0 and first_source and strict is False)
         if entry == 'extend-property':
@@ -898,6 +929,10 @@ def nm_cases(D, x, scope):
                 if want('extend', n=n, form=fl, strict=strict):
                     yield ('extend', strict, fl, '%s; p.extend(%s, strict=%s)' % (stext(n), fmt(ft), strict), start(n),
                            (lambda p, fb=fb, strict=strict: p.extend(fb(), strict=strict)), k)
+    for n in sizes:
+        if n and want('remove', n=n):
+            yield ('remove', None, 'single', '%s; p.remove(%s)' % (stext(n), fmt('%r')), start(n),
+                   (lambda p: p.remove(cp(x))), None)
     if D == 'none':
         return
     # a Property of another dtype that holds x: re-typed to D, merged into / appended to a D Property
@@ -916,10 +951,11 @@ def nm_cases(D, x, scope):
             continue
         stxt = 's = odml.Property(name="p", dtype=%r, values=%r)' % (stype, ([first] if first else []) + [x])
         fl = 'property-%s%s' % (stype or 'inferred', '-after-native' if first else '')
-        if want('dtype=', first_source=first_source):
-            yield ('dtype=', None, fl, '%s; s.dtype = %r' % (stxt, d),
-                   (lambda stype=stype, first=first: (nm_source(stype, x, first),)),
-                   (lambda s: setattr(s, 'dtype', d)), None)
+        for sl, sd in spellings:
+            if want('dtype=', first_source=first_source, member=bool(sl)):
+                yield ('dtype=', None, fl + ('-DType-member' if sl else ''), '%s; s.dtype = %r' % (stxt, sd),
+                       (lambda stype=stype, first=first: (nm_source(stype, x, first),)),
+                       (lambda s, sd=sd: setattr(s, 'dtype', sd)), None)
         for n in sizes:
             for strict in (True, False):
                 if want('merge', n=n, strict=strict, first_source=first_source):
@@ -957,6 +993,17 @@ def dropped_items(x, items, stored_before, stored_after, adding):
     return None
 
 
+def clone_problems(p):
+    """The clone of a conforming Property in normal form holds the same values under the same dtype."""
+    st, q = _try(p.clone)
+    if st == 'exc':
+        return [('clone-equal-values', 'clone() raised %s: %s on %r' % (type(q).__name__, str(q)[:60], vsnap(p)))]
+    out = inv_values(q)
+    if not out and vsnap(q) != vsnap(p):
+        out.append(('clone-equal-values', 'clone has %r, original %r' % (vsnap(q), vsnap(p))))
+    return out
+
+
 def nm_evaluate(D, x, case):
     """Contract check of one near-miss case. Returns (violations, outcome)."""
     entry, strict, form, text, build, act, items = case
@@ -972,7 +1019,10 @@ def nm_evaluate(D, x, case):
             dr = dropped_items(x, items, 0, len(p._values), False)
             if dr:
                 vio.append(('every-input-item-stored-or-refused', dr + '; stored %r' % (p._values,)))
-            vio += check_normal_form_raw(p)
+            nf = check_normal_form_raw(p)
+            vio += nf
+            if not nf:
+                vio += clone_problems(p)
         return vio, st
     pre_state = build()
     p = pre_state[0]
@@ -1012,7 +1062,10 @@ def nm_evaluate(D, x, case):
             if dr:
                 vio.append(('every-input-item-stored-or-refused', dr + '; values went from %r to %r'
                             % (pre[0], vsnap(p)[0])))
-        vio += check_normal_form_raw(p)
+        nf = check_normal_form_raw(p)
+        vio += nf
+        if st == 'ret' and not nf and vsnap(p) != pre:
+            vio += clone_problems(p)
     return vio, st
 
 
